@@ -40,6 +40,10 @@ func planC02(c *Ctx) epochPlan {
 			pl.scenarios = append(pl.scenarios, EpochScenario{Seed: "hb6", Cfg: 10, Fit: 2 + 3*fi, Policy: pol, Mode: mode, Epochs: 3})
 		}
 	}
+	// twenty species turned over by the parallel executor (base executions of every policy only)
+	for i, pol := range allPolicies {
+		pl.baseScenarios = append(pl.baseScenarios, EpochScenario{Seed: "hbm", Cfg: []int{0, 7, 5}[i%3], Fit: []int{2, 5, 6, 4}[i%4], Policy: pol, Mode: []string{"par", "parrev"}[i%2], Epochs: 2})
+	}
 	return pl
 }
 
